@@ -216,10 +216,13 @@ func compile0(expr ast.Expr, env1 *val.Env, dbg bool) compiler.Closure {
 		}
 	case *ast.MemberExpr:
 		// 也可以 desugar 成 build-in-fun
+		// objects of equal type may store their fields in different orders
+		// ({a,b} vs {b,a}), so the field is selected by name in the value's own layout
 		obj := compile(e.Obj, env1, dbg)
-		idx := e.Index
+		name := e.Field.Name
 		return func(env *val.Env) *val.Val {
-			return obj(env).Obj().V[idx]
+			v, _ := obj(env).Obj().Get(name)
+			return v
 		}
 
 	//case *ast.IfExpr:
